@@ -94,7 +94,8 @@ static int app(char *s, int off, int cap, const char *fmt, ...) {
 static void gen_synthetic(char *s, int cap) {
   int off = 0;
   unsigned budget = 256;  /* max PUs */
-#define CNT() ({ unsigned c = 1 + rng_below(rng_chance(70) ? 2 : 4); if (c > budget) c = 1; budget /= c; c; })
+  unsigned prod = 1;
+#define CNT() ({ unsigned c = 1 + rng_below(rng_chance(70) ? 2 : 4); if (c > budget) c = 1; budget /= c; prod *= c; c; })
   if (rng_chance(12)) {
     /* untyped levels */
     int n = 1 + rng_below(5);
@@ -103,9 +104,9 @@ static void gen_synthetic(char *s, int cap) {
   }
   int numa_mode = rng_below(4); /* 0: none explicit, 1: level, 2: attached, 3: attached at two places */
   if (rng_chance(25)) off = app(s, off, cap, "group:%u ", CNT());
-  if (rng_chance(70)) { off = app(s, off, cap, "pack:%u ", CNT()); if ((numa_mode == 2 || numa_mode == 3) && rng_chance(50)) { off = app(s, off, cap, "[numa%s] ", rng_chance(40) ? "(memory=1GB)" : ""); if (numa_mode == 2) numa_mode = 0; } }
+  if (rng_chance(70)) { off = app(s, off, cap, "pack:%u ", CNT()); if ((numa_mode == 2 || numa_mode == 3) && rng_chance(50)) { off = app(s, off, cap, "[numa%s] ", rng_chance(40) ? "(memory=1GB)" : rng_chance(25) ? "(memorysidecachesize=64MB)" : rng_chance(10) ? "(indexes=1,0)" : ""); if (numa_mode == 2) numa_mode = 0; } }
   if (rng_chance(20)) off = app(s, off, cap, "die:%u ", CNT());
-  if (numa_mode == 1) off = app(s, off, cap, "numa:%u%s ", CNT(), rng_chance(30) ? "(memory=256MB)" : "");
+  if (numa_mode == 1) off = app(s, off, cap, "numa:%u%s ", CNT(), rng_chance(30) ? "(memory=256MB)" : rng_chance(25) ? "(memory=1GB memorysidecachesize=128MB)" : rng_chance(8) ? "(indexes=1,1)" : "");
   if (rng_chance(15)) off = app(s, off, cap, "group:%u ", CNT());
   if (rng_chance(40)) { off = app(s, off, cap, "l3:%u%s ", CNT(), rng_chance(30) ? "(size=8MB)" : ""); if (numa_mode >= 2) { off = app(s, off, cap, "[numa] "); numa_mode = 0; } }
   if (rng_chance(40)) off = app(s, off, cap, "l2:%u ", CNT());
@@ -113,7 +114,22 @@ static void gen_synthetic(char *s, int cap) {
   if (rng_chance(30)) off = app(s, off, cap, "l1:%u ", 1u);
   if (rng_chance(80)) off = app(s, off, cap, "core:%u ", CNT());
   off = app(s, off, cap, "pu:%u", CNT());
-  if (rng_chance(10)) off = app(s, off, cap, "(indexes=core:pu)");
+  unsigned im = rng_below(100);
+  if (im < 8) off = app(s, off, cap, "(indexes=core:pu)");
+  else if (im < 12) off = app(s, off, cap, "(indexes=pack:core)");
+  else if (im < 16) off = app(s, off, cap, "(indexes=numa:pu)");
+  else if (im < 26 && prod <= 64) {
+    /* explicit list: reversed, strided, or (rarely) with a duplicate / missing entry */
+    unsigned k = rng_below(10);
+    off = app(s, off, cap, "(indexes=");
+    for (unsigned i = 0; i < prod; i++) {
+      unsigned v = k < 4 ? prod - 1 - i : k < 7 ? (i * 2) % prod + (i * 2) / prod : k == 7 ? i / 2 : k == 8 ? 3 * i + 1 : i;
+      if (k == 9 && i == prod - 1 && prod > 1) break;
+      off = app(s, off, cap, "%s%u", i ? "," : "", v);
+    }
+    off = app(s, off, cap, ")");
+  } else if (im < 32 && prod >= 4 && prod % 2 == 0) off = app(s, off, cap, "(indexes=%u*2:1*%u)", prod / 2, prod / 2);
+  else if (im < 35 && prod >= 4) off = app(s, off, cap, "(indexes=1*%u:2*2)", prod / 2);   /* overlapping strides */
 }
 
 int main(int argc, char **argv) {
